@@ -5,7 +5,7 @@
 //! (HashMap::insert(any): > 15 min / 11 GB; BTreeMap two inserts: OOM at 36 GB).
 //! Native replay always uses the real std maps.
 
-pub const CAP: usize = 3;
+pub const CAP: usize = 4;
 
 /// NOTE on shape: every operation walks the slots with a CONSTANT index and a guard, and never
 /// computes a slot index as a value. A symbolic index into an array of rows makes CBMC treat the
@@ -17,7 +17,7 @@ pub struct HashMap<K, V> {
 impl<K: Copy + PartialEq, V> HashMap<K, V> {
     pub fn new() -> Self {
         HashMap {
-            slots: [None, None, None],
+            slots: [None, None, None, None],
         }
     }
     fn holds(&self, i: usize, k: &K) -> bool {
@@ -47,10 +47,13 @@ impl<K: Copy + PartialEq, V> HashMap<K, V> {
         if self.holds(2, k) {
             return self.slots[2].as_ref().map(|(_, v)| v);
         }
+        if self.holds(3, k) {
+            return self.slots[3].as_ref().map(|(_, v)| v);
+        }
         None
     }
     pub fn contains_key(&self, k: &K) -> bool {
-        self.holds(0, k) || self.holds(1, k) || self.holds(2, k)
+        self.holds(0, k) || self.holds(1, k) || self.holds(2, k) || self.holds(3, k)
     }
     /// put (k, v) into the first free slot (the harness never fills the model beyond CAP rows)
     fn put_free(&mut self, k: K, v: V) {
@@ -60,6 +63,8 @@ impl<K: Copy + PartialEq, V> HashMap<K, V> {
             self.slots[1] = Some((k, v));
         } else if self.slots[2].is_none() {
             self.slots[2] = Some((k, v));
+        } else if self.slots[3].is_none() {
+            self.slots[3] = Some((k, v));
         } else {
             panic!("model map full");
         }
@@ -73,6 +78,9 @@ impl<K: Copy + PartialEq, V> HashMap<K, V> {
         }
         if self.holds(2, &k) {
             return self.slots[2].replace((k, v)).map(|(_, v)| v);
+        }
+        if self.holds(3, &k) {
+            return self.slots[3].replace((k, v)).map(|(_, v)| v);
         }
         self.put_free(k, v);
         None
@@ -137,7 +145,13 @@ impl<'a, K: Copy + PartialEq, V> Entry<'a, K, V> {
                 None => unreachable!(),
             };
         }
-        match &mut map.slots[2] {
+        if map.holds(2, &key) {
+            return match &mut map.slots[2] {
+                Some((_, v)) => v,
+                None => unreachable!(),
+            };
+        }
+        match &mut map.slots[3] {
             Some((_, v)) => v,
             None => unreachable!(),
         }
